@@ -119,6 +119,7 @@ def gen_spec(r):
             rest -= k
         spec["calls"] = calls
         spec["colcalls"] = r.random() < 0.4     # columns given in several columns() calls
+        spec["shortcut"] = r.random() < 0.3     # the statement is opened by the Table.insert(...) shortcut (no column list)
     elif kind == "insert_select":
         src = spec["src"]
         cols = r.sample(COLS, r.randint(1, 4))
@@ -208,6 +209,8 @@ def to_py(spec):
                 body += ".%s(%s)" % (meth, ", ".join(py_value(e, Q) for e in rows[0]))
             else:
                 body += ".%s(%s)" % (meth, ", ".join("(%s,)" % ", ".join(py_value(e, Q) for e in row) for row in rows))
+        if spec.get("shortcut") and not cols and not br and spec["form"] == "insert":
+            head = "T(%r, query_cls=%s)" % (t.table, Q)      # Table.insert(*rows) == Query.into(table).insert(*rows)
         if br:
             lines.append("p = %s%s" % (head, first))
             lines.append("sibling = p.columns('zz', 'yy').insert(1, 2)")
